@@ -142,8 +142,14 @@ h3 = {"name": "h3_lookup", "src": "h3_lookup.c", "env": ["ctx", "hash_model", "l
 h3int = {"name": "h3_int", "src": "h3_int.c", "env": ["ctx"], "tus": ["types_base"], "unwind": 2, "timeout": 300, "mem_gb": 8, "object_bits": 12,
          "functions": ["KSI_Integer_new", "KSI_Integer_getUInt64", "KSI_Integer_equals", "KSI_Integer_compare", "KSI_Integer_free"], "bound": "all pairs of 64-bit values", "solver": "cadical"}
 
+h2b = {"name": "h2b_constraints", "src": "h2b_constraints.c", "env": ["ctx", "fmt_stub"], "tus": [], "unwind": 6, "harness_unwind": 260, "timeout": 300, "mem_gb": 8, "object_bits": 12,
+       "functions": ["KSI_PKITruststore_verifyPKISignature", "pki_truststore_verifySignature", "KSI_PKITruststore_verifySignatureCertificate", "pki_truststore_verifyCertificateConstraints", "KSI_PKISignature_extractCertificate", "KSI_PKICertificate_free"],
+       "bound": "file-level constraint set absent / 0..2 entries x context-level set absent / 0..2 entries; every OpenSSL outcome, the subject attribute texts and the expected values (2 characters each) symbolic",
+       "instances": [{"label": "file%s_ctx%s" % (str(f).replace("-1", "none"), str(c).replace("-1", "none")), "defines": ["NFILE=%d" % f, "NCTX=%d" % c]}
+                     for f, c in [(-1, -1), (-1, 0), (-1, 1), (-1, 2), (0, 2), (1, -1), (1, 2), (2, 1), (2, -1)]]}
+
 plan = {"property": "C18", "outside": "TBD", "assumptions": [], "manifest": {"claimed": True, "level_text": "TBD", "level_note": "TBD"},
-        "harnesses": [h1, h2, h3, h3int]}
+        "harnesses": [h1, h2, h2b, h3, h3int]}
 extra = os.path.join(HERE, "plan_extra.json")
 if os.path.exists(extra):
     e = json.load(open(extra))
